@@ -33,6 +33,14 @@ class Scheduler:
         self.p_hot = p_hot
         self.hot_funcs = frozenset(hot_funcs)
         self.max_switches = max_switches
+        self.quiet = 0  # after a switch in a hot region: number of yield points during which the new thread keeps running
+        # targeted pre-emption: at the k-th hot yield point of the run (k uniform), park the running thread and let the
+        # other one run undisturbed.  Uniform over *positions* - a per-line coin would almost never get past the first
+        # lines of a hot function - so every one-line window inside a hot function is hit with probability ~ 1/#lines.
+        self.hot_count = 0
+        self.hot_breaks = set()
+        if self.rng is not None:
+            self.hot_breaks = {self.rng.randrange(1, 90) for _ in range(self.rng.choice((1, 2, 3)))}
         self.sems = [threading.Semaphore(0) for _ in range(n_threads)]
         self.done = [False] * n_threads
         self.step = 0
@@ -63,8 +71,20 @@ class Scheduler:
             return to
         if len(self.switches) >= self.max_switches:
             return tid
+        if hot:
+            self.hot_count += 1
+            if self.hot_count in self.hot_breaks:
+                self.quiet = 6000
+                return others[self.rng.randrange(len(others))]
+        if self.quiet > 0:
+            # the thread that was switched to inside a hot region gets to finish what it is doing (e.g. build the
+            # same grid) before the parked thread continues: this is what makes check-then-act windows observable
+            self.quiet -= 1
+            return tid
         p = self.p_hot if hot else self.p_switch
         if self.rng.random() < p:
+            if hot:
+                self.quiet = self.rng.choice((0, 0, 300, 1500, 4000))
             return others[self.rng.randrange(len(others))]
         return tid
 
